@@ -3,6 +3,7 @@
   computed intersection; the graph construction invariant.
 -/
 import Pycel.Model.Needed
+import Pycel.Lemmas.Addr
 namespace Pycel.Needed
 open Pycel Pycel.Formula
 
@@ -329,32 +330,10 @@ end
 def AddrOK (a : Addr.Addr) : Prop :=
   a.rect.sheet ≠ [] ∧ (a.isRange = true ∨ (a.rect.c1 = a.rect.c2 ∧ a.rect.r1 = a.rect.r2))
 
-theorem combineCore_inter (a b : Addr.Rect) (ha wa hb wb : Int) (r : Addr.Rect)
-    (h : Addr.combineCore true a b ha wa hb wb = .rect r) :
-    ¬ (a.sheet ≠ [] ∧ b.sheet ≠ [] ∧ a.sheet ≠ b.sheet) ∧
-    r.sheet = (if a.sheet ≠ [] then a.sheet else b.sheet) ∧
-    max (a.c1 : Int) b.c1 ≤ min ((a.c1 : Int) + wa) (b.c1 + wb) - 1 ∧
-    max (a.r1 : Int) b.r1 ≤ min ((a.r1 : Int) + ha) (b.r1 + hb) - 1 ∧
-    (r.c1 : Int) = max (a.c1 : Int) b.c1 ∧ (r.r1 : Int) = max (a.r1 : Int) b.r1 ∧
-    (r.c2 : Int) = min ((a.c1 : Int) + wa) (b.c1 + wb) - 1 ∧ (r.r2 : Int) = min ((a.r1 : Int) + ha) (b.r1 + hb) - 1 := by
-  unfold Addr.combineCore at h
-  by_cases hs : a.sheet ≠ [] ∧ b.sheet ≠ [] ∧ a.sheet ≠ b.sheet
-  · rw [if_pos hs] at h; cases h
-  · rw [if_neg hs] at h
-    simp only [ite_true] at h
-    by_cases hn : min ((a.c1 : Int) + wa) (b.c1 + wb) - 1 < max (a.c1 : Int) b.c1 ∨
-        min ((a.r1 : Int) + ha) (b.r1 + hb) - 1 < max (a.r1 : Int) b.r1
-    · rw [if_pos hn] at h; cases h
-    · rw [if_neg hn] at h
-      simp only [Addr.Res.rect.injEq] at h
-      subst h
-      refine ⟨hs, rfl, by omega, by omega, ?_, ?_, ?_, ?_⟩ <;> simp only <;> omega
-
-
 theorem dim_cover (isR : Bool) (a1 a2 r1 r2 x : Nat) (M e : Int)
     (he : e = if isR = true then (if a1 = 0 ∨ a2 = 0 then M else (a2 : Int) - a1 + 1) else 1)
     (hok : isR = true ∨ a1 = a2)
-    (h1 : (a1 : Int) ≤ r1) (h2 : (r2 : Int) ≤ a1 + e - 1) (h3 : (r1 : Int) ≤ r2)
+    (h1 : Addr.or1 a1 ≤ r1) (h2 : (r2 : Int) ≤ Addr.or1 a1 + e - 1) (h3 : (r1 : Int) ≤ r2)
     (hx : r1 = 0 ∨ r2 = 0 ∨ (r1 ≤ x ∧ x ≤ r2)) : a1 = 0 ∨ a2 = 0 ∨ (a1 ≤ x ∧ x ≤ a2) := by
   subst he
   cases isR with
@@ -364,12 +343,15 @@ theorem dim_cover (isR : Bool) (a1 a2 r1 r2 x : Nat) (M e : Int)
     · rcases hz with hz | hz
       · exact Or.inl hz
       · exact Or.inr (Or.inl hz)
-    · rw [if_neg hz] at h2; omega
+    · rw [if_neg hz] at h2; unfold Addr.or1 at h1 h2; rw [if_neg (by omega)] at h1 h2; omega
   | false =>
     simp only [Bool.false_eq_true, if_false] at h2
     rcases hok with hok | hok
     · cases hok
-    · omega
+    · unfold Addr.or1 at h1 h2
+      by_cases h0 : a1 = 0
+      · exact Or.inl h0
+      · rw [if_neg h0] at h1 h2; omega
 
 /-- C11's intersection geometry for the address objects of the emitted code, unbounded rows / columns included:
     every cell of the computed intersection is a cell of both operands -/
@@ -389,42 +371,32 @@ theorem combine_covers (a b : Addr.Addr) (r : Addr.Rect) (ha : AddrOK a) (hb : A
       · simp only [Except.ok.injEq, Addr.Res.rect.injEq] at h; rw [h]
     | null => rw [hc] at h; simp at h
     | value => rw [hc] at h; simp at h
-  obtain ⟨hs, hsh, hc, hr, e1, e2, e3, e4⟩ := combineCore_inter _ _ _ _ _ _ _ hcore
+  obtain ⟨hs, hsh, hcol, hrow⟩ := Addr.combineCore_inter_bounds _ _ _ _ _ _ _ hcore
   have hsame : a.rect.sheet = b.rect.sheet := by
     apply Classical.byContradiction; intro hne; exact hs ⟨has, hbs, hne⟩
   rw [if_pos has] at hsh
   refine ⟨⟨by simp [Addr.Rect.toAddr, hsh, has], ?_⟩, ?_⟩
-  · simp only [Addr.Rect.toAddr]
-    by_cases hx : r.c1 = r.c2 ∧ r.r1 = r.r2
-    · right; exact hx
-    · left; simp only [Bool.not_eq_true', Bool.and_eq_false_iff, decide_eq_false_iff_not]
-      by_cases h1 : r.c1 = r.c2
-      · right; intro h2; exact hx ⟨h1, h2⟩
-      · left; exact h1
+  · simp only [Addr.Rect.toAddr, Bool.or_eq_true, Bool.not_eq_true', Bool.and_eq_false_iff,
+      decide_eq_false_iff_not, decide_eq_true_eq]
+    omega
   · intro c ⟨hcs, hcr, hcc⟩
-    have ra1 : (a.rect.r1 : Int) ≤ r.r1 := by rw [e2]; exact Int.le_max_left _ _
-    have rb1 : (b.rect.r1 : Int) ≤ r.r1 := by rw [e2]; exact Int.le_max_right _ _
-    have ca1 : (a.rect.c1 : Int) ≤ r.c1 := by rw [e1]; exact Int.le_max_left _ _
-    have cb1 : (b.rect.c1 : Int) ≤ r.c1 := by rw [e1]; exact Int.le_max_right _ _
-    have ra2 : (r.r2 : Int) ≤ a.rect.r1 + a.height - 1 := by
-      rw [e4]; have := Int.min_le_left ((a.rect.r1 : Int) + a.height) (b.rect.r1 + b.height); omega
-    have rb2 : (r.r2 : Int) ≤ b.rect.r1 + b.height - 1 := by
-      rw [e4]; have := Int.min_le_right ((a.rect.r1 : Int) + a.height) (b.rect.r1 + b.height); omega
-    have ca2 : (r.c2 : Int) ≤ a.rect.c1 + a.width - 1 := by
-      rw [e3]; have := Int.min_le_left ((a.rect.c1 : Int) + a.width) (b.rect.c1 + b.width); omega
-    have cb2 : (r.c2 : Int) ≤ b.rect.c1 + b.width - 1 := by
-      rw [e3]; have := Int.min_le_right ((a.rect.c1 : Int) + a.width) (b.rect.c1 + b.width); omega
-    have r12 : (r.r1 : Int) ≤ r.r2 := by rw [e2, e4]; exact hr
-    have c12 : (r.c1 : Int) ≤ r.c2 := by rw [e1, e3]; exact hc
-    refine ⟨⟨by rw [hcs, hsh], ?_, ?_⟩, ⟨by rw [hcs, hsh, hsame], ?_, ?_⟩⟩
-    · exact dim_cover a.isRange _ _ _ _ _ Addr.MAX_ROW a.height rfl
-        (hac.imp id (·.2)) ra1 ra2 r12 hcr
-    · exact dim_cover a.isRange _ _ _ _ _ Addr.MAX_COL a.width rfl
-        (hac.imp id (·.1)) ca1 ca2 c12 hcc
-    · exact dim_cover b.isRange _ _ _ _ _ Addr.MAX_ROW b.height rfl
-        (hbc.imp id (·.2)) rb1 rb2 r12 hcr
-    · exact dim_cover b.isRange _ _ _ _ _ Addr.MAX_COL b.width rfl
-        (hbc.imp id (·.1)) cb1 cb2 c12 hcc
+    have rowA : a.rect.r1 = 0 ∨ a.rect.r2 = 0 ∨ (a.rect.r1 ≤ c.row ∧ c.row ≤ a.rect.r2) := by
+      rcases hrow with ⟨_, _, ua, _⟩ | ⟨ra1, _, r12, ra2, _⟩
+      · omega
+      · exact dim_cover a.isRange _ _ _ _ _ Addr.MAX_ROW a.height rfl (hac.imp id (·.2)) ra1 ra2 r12 hcr
+    have rowB : b.rect.r1 = 0 ∨ b.rect.r2 = 0 ∨ (b.rect.r1 ≤ c.row ∧ c.row ≤ b.rect.r2) := by
+      rcases hrow with ⟨_, _, _, ub⟩ | ⟨_, rb1, r12, _, rb2⟩
+      · omega
+      · exact dim_cover b.isRange _ _ _ _ _ Addr.MAX_ROW b.height rfl (hbc.imp id (·.2)) rb1 rb2 r12 hcr
+    have colA : a.rect.c1 = 0 ∨ a.rect.c2 = 0 ∨ (a.rect.c1 ≤ c.col ∧ c.col ≤ a.rect.c2) := by
+      rcases hcol with ⟨_, _, ua, _⟩ | ⟨ca1, _, c12, ca2, _⟩
+      · omega
+      · exact dim_cover a.isRange _ _ _ _ _ Addr.MAX_COL a.width rfl (hac.imp id (·.1)) ca1 ca2 c12 hcc
+    have colB : b.rect.c1 = 0 ∨ b.rect.c2 = 0 ∨ (b.rect.c1 ≤ c.col ∧ c.col ≤ b.rect.c2) := by
+      rcases hcol with ⟨_, _, _, ub⟩ | ⟨_, cb1, c12, _, cb2⟩
+      · omega
+      · exact dim_cover b.isRange _ _ _ _ _ Addr.MAX_COL b.width rfl (hbc.imp id (·.1)) cb1 cb2 c12 hcc
+    exact ⟨⟨by rw [hcs, hsh], rowA, colA⟩, ⟨by rw [hcs, hsh, hsame], rowB, colB⟩⟩
 
 /-! ## every run-time read is covered by a written reference -/
 
